@@ -8,6 +8,6 @@ if a[1] == 'fixed':
     e = {'property': a[0], 'status': 'fixed', 'commit': a[2], 'bucket': a[3], 'what': 'fixed: property=%s %s %s' % (a[0], a[2], a[4])}
 else:
     e = {'property': a[0], 'status': 'known', 'bucket': a[2], 'what': a[3]}
-k['findings'] = [x for x in k['findings'] if not (x['property'] == e['property'] and x['bucket'] == e['bucket'])] + [e]
+k['findings'] = [x for x in k['findings'] if not (x['property'] == e['property'] and x['bucket'] == e['bucket'] and x['status'] == e['status'] and x.get('commit') == e.get('commit'))] + [e]
 json.dump(k, open(p, 'w'), indent=1)
 print('recorded', e['property'], e['status'], e['bucket'])
